@@ -33,7 +33,7 @@ RULE = (
     "of the wall (profile).  Distinct by canonical JSON of the case."
 )
 BUDGET = {
-    "quick": {"cases": 416, "shrink": False, "time_cap_s": 600},
+    "quick": {"cases": 352, "shrink": False, "time_cap_s": 600},
     "thorough": {"cases": 6000, "shrink": False, "time_cap_s": 3000},
 }
 EPS = 2.0 ** -52
